@@ -64,6 +64,8 @@ def definitional_cycle(texts):
         # when this one ends with an operator or a comma: join such lines
         text = re.sub(r"\n(?:[ \t]*\n)*(?=[ \t]*[-+*/%&|!^_(<>,])", " ", text)
         text = re.sub(r"(?<=[-+*/%&|!^_,(<])[ \t]*\n(?:[ \t]*\n)*", " ", text)
+        # a directive whose operand starts on the next line ('.ascii' + newline + operands)
+        text = re.sub(r"(?i)(\.blkb|\.blkw|\.align|\.repeat|\.link|\.ascii|\.asciz|\.rad50|\.include|insert_file|=)[ \t]*\n(?:[ \t]*\n)*", r"\1 ", text)
         text = re.sub(r"\^[CcXxOoBbDdRr]", " ", text)
         pos = 0
         while True:
